@@ -47,6 +47,7 @@ type Exit struct {
 	pos     string
 	payload Term
 	hasPayload bool
+	path    string // inline path of the frame the panic is in
 }
 
 type deferred struct {
